@@ -1,4 +1,5 @@
 import Zstd.Model.FrameDecoder
+import Zstd.Proofs.FrameDecoderStandIn
 import Zstd.Proofs.DictCopy
 /-
 C09 — dictionary frames decode correctly; a missing dictionary is an error.
@@ -14,12 +15,15 @@ computes the same (`repeat_eq_rust_statements`); helper lemmas in `Zstd/Proofs/D
 the dictionary file itself goes through the entropy table builders (C12/C13); the executable model
 currently parses dictionaries with the Spec parser.
 -/
+set_option linter.unusedSectionVars false
 namespace Zstd.Props.C09
 open Zstd Zstd.Model Zstd.Proofs.DictCopy
 
+variable {σ : Type} [BlockDec σ] [BlockContract σ]
+
 /-- whenever `reset` replaces the state, it is the fresh state of that header with the dictionary
 choice applied -/
-theorem resetCore_replace (dicts : List Dict) (maxW : Nat) (s : Src) (st : FState) (o : Out Src)
+theorem resetCore_replace (dicts : List (Dict σ)) (maxW : Nat) (s : Src) (st : FState σ) (o : Out Src)
     (h : resetCore dicts maxW s = .replace st o) :
     ∃ hd hdrLen w rest, applyDictChoice dicts (freshState hd hdrLen w) rest = .replace st o := by
   unfold resetCore at h
@@ -33,11 +37,11 @@ theorem resetCore_replace (dicts : List Dict) (maxW : Nat) (s : Src) (st : FStat
       · cases h
       · exact ⟨hd, hdrLen, w, rest, h⟩
 
-theorem withDict_header (st : FState) (d : Dict) : (st.withDict d).header = st.header := rfl
+theorem withDict_header (st : FState σ) (d : Dict σ) : (st.withDict d).header = st.header := rfl
 
 /-- a frame that names a dictionary the decoder was not given is refused with `DictNotProvided`;
 no block has been decoded and nothing is buffered -/
-theorem missing_dict_error (dicts : List Dict) (maxW : Nat) (s : Src) (st : FState) (o : Out Src)
+theorem missing_dict_error (dicts : List (Dict σ)) (maxW : Nat) (s : Src) (st : FState σ) (o : Out Src)
     (h : resetCore dicts maxW s = .replace st o) (id : Nat)
     (hid : st.header.dictId = some id) (hmiss : dicts.find? (fun x => x.id = id) = none) :
     o = .err (.dictNotProvided id) ∧ st.blockCounter = 0 ∧ st.buf.content = #[] ∧ st.buf.dict = #[] := by
@@ -58,8 +62,8 @@ theorem missing_dict_error (dicts : List Dict) (maxW : Nat) (s : Src) (st : FSta
 
 /-- with the dictionary registered, `reset` seeds exactly: entropy tables and repeat offsets
 (`entropy`), the dictionary content, and records which dictionary is in use -/
-theorem init_from_dict_state (dicts : List Dict) (maxW : Nat) (s : Src) (st : FState) (o : Out Src)
-    (h : resetCore dicts maxW s = .replace st o) (id : Nat) (dict : Dict)
+theorem init_from_dict_state (dicts : List (Dict σ)) (maxW : Nat) (s : Src) (st : FState σ) (o : Out Src)
+    (h : resetCore dicts maxW s = .replace st o) (id : Nat) (dict : Dict σ)
     (hid : st.header.dictId = some id) (hfind : dicts.find? (fun x => x.id = id) = some dict) :
     st.entropy = dict.entropy ∧ st.buf.dict = dict.content ∧ st.usingDict = some dict.id ∧
     st.buf.content = #[] ∧ st.blockCounter = 0 ∧ (∃ rest, o = .ok rest) := by
@@ -82,19 +86,28 @@ theorem init_from_dict_state (dicts : List Dict) (maxW : Nat) (s : Src) (st : FS
 
 /-- a frame whose header names no dictionary starts from the empty entropy state and an empty
 dictionary content, whatever dictionaries are registered (nothing leaks from the registry) -/
-theorem no_dict_without_id (dicts : List Dict) (maxW : Nat) (s : Src) (st : FState) (o : Out Src)
+theorem no_dict_without_id (dicts : List (Dict σ)) (maxW : Nat) (s : Src) (st : FState σ) (o : Out Src)
     (h : resetCore dicts maxW s = .replace st o) (hid : st.header.dictId = none) :
-    st.buf.dict = #[] ∧ st.usingDict = none ∧ st.entropy.huf = none ∧ st.entropy.ll = none ∧
-    st.entropy.of = none ∧ st.entropy.ml = none ∧ st.entropy.hist = ⟨1, 4, 8⟩ := by
+    st.buf.dict = #[] ∧ st.usingDict = none ∧ st.entropy = BlockDec.fresh := by
   obtain ⟨hd, hdrLen, w, rest, h⟩ := resetCore_replace dicts maxW s st o h
   unfold applyDictChoice at h
   split at h
   · injection h with h1 h2; subst h1
-    exact ⟨rfl, rfl, rfl, rfl, rfl, rfl, rfl⟩
+    exact ⟨rfl, rfl, rfl⟩
   · rename_i id' hsome
     split at h
     · injection h with h1 h2; subst h1; rw [hsome] at hid; cases hid
     · injection h with h1 h2; subst h1; rw [withDict_header, hsome] at hid; cases hid
+
+/-- … for the stand-in, the fresh entropy state is: no Huffman table, no FSE tables, repeat offsets
+(1, 4, 8) (the statement of `no_dict_without_id` before the parametrisation) -/
+theorem no_dict_without_id_standIn (dicts : List (Dict Spec.Entropy)) (maxW : Nat) (s : Src) (st : FState Spec.Entropy)
+    (o : Out Src) (h : resetCore dicts maxW s = .replace st o) (hid : st.header.dictId = none) :
+    st.buf.dict = #[] ∧ st.usingDict = none ∧ st.entropy.huf = none ∧ st.entropy.ll = none ∧
+    st.entropy.of = none ∧ st.entropy.ml = none ∧ st.entropy.hist = ⟨1, 4, 8⟩ := by
+  obtain ⟨h1, h2, h3⟩ := no_dict_without_id dicts maxW s st o h hid
+  rw [h3]
+  exact ⟨h1, h2, rfl, rfl, rfl, rfl, rfl⟩
 
 /-- a match offset reaching beyond dictionary plus buffered output is rejected -/
 theorem offset_beyond_rejected (b : DBuf) (offset ml : Nat)
@@ -118,7 +131,7 @@ theorem dict_out_of_reach_after_window (b : DBuf) (offset ml : Nat)
   simp [h1, this]
 
 /-- `force_dict` needs an initialised frame and a registered dictionary -/
-theorem forceDict_errors (d : Decoder) (id : Nat) :
+theorem forceDict_errors (d : Decoder σ) (id : Nat) :
     (d.state = none → (d.forceDict id).2 = .err .notInitialized) ∧
     (d.state ≠ none → d.dicts.find? (fun x => x.id = id) = none → (d.forceDict id).2 = .err (.dictNotProvided id)) := by
   unfold Decoder.forceDict
@@ -412,7 +425,7 @@ theorem invariants_drain_to_window (b : DBuf) (n k : Nat)
 window and hasher input alone and keeps both invariants; together with `invariants_reset` and
 `invariants_drain_to_window` they hold in every state `decode_blocks` can reach, which is what
 `executeSequences_refines_dict` asks of the buffer at the start of each block -/
-theorem decodeOneBlock_keeps_invariants (st : FState) (s : Src)
+theorem decodeOneBlock_keeps_invariants (st : FState σ) (s : Src)
     (hinv : st.buf.totalOut ≤ st.buf.hashed.size + st.buf.content.size)
     (hret : min st.buf.window (st.buf.hashed.size + st.buf.content.size) ≤ st.buf.content.size) :
     let b' := (decodeOneBlock st s).1.buf
@@ -444,7 +457,7 @@ example :
      | .error _ => false) = true := by decide
 
 /-- non-vacuity: a frame header naming dictionary 7 on a decoder without dictionaries -/
-example : (match resetCore [] (2 ^ 27) [0x28, 0xB5, 0x2F, 0xFD, 0x01, 0x00, 0x07, 0x01, 0, 0] with
+example : (match resetCore ([] : List (Dict Spec.Entropy)) (2 ^ 27) [0x28, 0xB5, 0x2F, 0xFD, 0x01, 0x00, 0x07, 0x01, 0, 0] with
     | .replace st (.err (.dictNotProvided 7)) => st.header.dictId == some 7
     | _ => false) = true := by decide
 
